@@ -16,3 +16,10 @@ package util
 // server clock value or a stored occurrence before the year 2262, so that curr*1e6 ns fits an int64
 //@ requires curr >= 0 && curr <= 9223372036854
 //@ ensures result1 == nil ==> result0 == cronnext(cronExp, curr)
+
+// The schedule handed out for an expression is the parse of exactly that expression (C10: a schedule fires at
+// the occurrences of its own cron, not of another expression that happens to share a cache key).
+//@ func ParseCron
+//@ props C10
+//@ abstract-calls .*
+//@ ensures result1 == nil ==> result0 != nil && cronexpr(result0) == cronExp
